@@ -54,6 +54,7 @@ prop("C14",
 # ---------------------------------------------------------------------------------------------
 # C15 Schema.Check
 prop("C15",
+     crash_is_violation=True,
      family="check",
      mc=lambda tier: [("MC_Check", "MC_Check_quick.cfg"), ("MC_Check", "MC_Check_under.cfg"), ("MC_Check", "MC_Check_ft.cfg")] +
      _t(tier, [], [("MC_Check", "MC_Check_thorough.cfg")]),
@@ -197,6 +198,7 @@ prop("C10",
 # ---------------------------------------------------------------------------------------------
 # C09 Range
 prop("C09",
+     crash_is_violation=True,
      family="range",
      mc=lambda tier: [("MC_Range", "MC_Range.cfg")],
      driver=lambda tier, seed, gen, out: ["range", "-out", out, "-seed", str(seed)] +
@@ -324,6 +326,7 @@ _url_common = dict(
     coverage=False,
 )
 prop("C07",
+     crash_is_violation=True,
      level_text="The specification states Consistent(request, URL) - resource type in the schema, field selection per "
                 "type (only its fields or id, no duplicate, all fields by default), inclusion paths as chains of the "
                 "schema's relationships with every valid requested path kept unless a longer requested one extends "
@@ -338,6 +341,7 @@ prop("C07",
                 "TestParseParams). A panic, or an error together with a URL, is a rejection.",
      **_url_common)
 prop("C08",
+     crash_is_violation=True,
      level_text="Same specification and vocabulary; for every accepted URL the chain parse -> String() -> parse -> "
                 "String() is run on the real code and judged step by step (the text parses, same fragments, type, id, "
                 "relationship, field sets, sorting rules, page parameters of collection URLs, filter label / tree, "
@@ -354,6 +358,7 @@ prop("C08",
 # ---------------------------------------------------------------------------------------------
 # C20 struct declarations
 prop("C20",
+     crash_is_violation=True,
      family="struct",
      mc=lambda tier: [("MC_Struct", _t(tier, "MC_Struct_quick.cfg", "MC_Struct_thorough.cfg"))],
      gen=lambda tier: ("MC_Struct", _t(tier, "MC_Struct_quick.cfg", "MC_Struct_thorough.cfg")),
